@@ -133,12 +133,12 @@ theorem encrypt_call {prog : Program} {nk pidx pk sidx aidx gidx : Nat} {P : Lis
   have e1fr : ∀ y, y ≠ 10 → E1[y]? = E0[y]? := fun y hy => by rw [← hE1]; exact get_set_ne _ _ _ _ (fun e => hy e.symm)
   have hE1sz : E1.size = 11 + 5 * nk + 47 := by rw [← hE1, size_setVar]; exact hE0sz
   let g : AGeo := ⟨prog, pidx, nk, P, ep.hspec, st.mem.size, 0, st.ent, rfl, by simp only [ptrBase]; omega, by omega⟩
-  have ki0 : KI g M0 (11 + 5 * nk + 47) kws E1 0 E1 st1 :=
+  have ki0 : KI g M0 (11 + 5 * nk + 47) kws E1 11 0 E1 st1 :=
     ⟨hE1sz, fun _ _ => rfl, ⟨_, by rw [hst1m]; exact hM0n, by show (Array.replicate (16 + 4 * nk) ((0 : UInt8), Lab.undef)).size = 16 + 4 * nk; simp, fun i v hi _ => absurd hi (by omega)⟩, by rw [hst1m]; exact OthLe.refl _ _, by rw [hst1m], hst1e⟩
   let dgK : DGeo g M0 := ⟨bk, basek, XK, by show bk ≠ st.mem.size; omega, by omega, bK.hlt, by rw [hM0lt bk (fun e => hsep.2.2.2.2 e.symm) hbkN]; exact bK.hm⟩
   let dgN : DGeo g M0 := ⟨bn, basen, XN, by show bn ≠ st.mem.size; omega, by omega, bN.hlt, by rw [hM0lt bn (fun e => hsep.2.2.2.1 e.symm) hbnN]; exact bN.hm⟩
   let dgA : DGeo g M0 := ⟨ba, basea, XA, by show ba ≠ st.mem.size; omega, by omega, bA.hlt, by rw [hM0lt ba (fun e => hsep.2.2.1 e.symm) hbaN]; exact bA.hm⟩
-  refine key_words (g := g) dgK koff key bK.hd hkl hk (by rw [e1fr 8 (by decide)]; exact hE08) (by rw [e1fr 7 (by decide)]; exact e0_7) (by show 11 + 5 * nk ≤ _; omega) _ (by simp)
+  refine key_words (g := g) dgK koff key bK.hd hkl hk (sv := 8) (t0 := 11) (by decide) (by decide) (by rw [e1fr 8 (by decide)]; exact hE08) (by rw [e1fr 7 (by decide)]; exact e0_7) (by show 11 + 5 * nk ≤ _; omega) _ (by simp)
     nk 0 (by show 0 + nk = nk; omega) E1 st1 ki0 ?_
   intro e2 st2 ki
   have hE2sz := ki.esz
